@@ -49,7 +49,7 @@ class SmtpRelayWorld(object):
         script = scripts[min(k, len(scripts) - 1)]
         peer = ScriptedPeer(server, script, lmtp=self.cfg.get('lmtp', False),
                             context=VContext() if self.cfg.get('tls') else None,
-                            pipelining=self.cfg.get('pipelining', True), auth=bool(self.cfg.get('auth')),
+                            pipelining=self.cfg.get('pipelining', True), auth=self.cfg.get('auth') if isinstance(self.cfg.get('auth'), str) else bool(self.cfg.get('auth')),
                             tls_immediately=(self.cfg.get('tls') == 'immediate'), **self.cfg.get('peer_kw', {}))
         self.peers.append(peer)
         if self.cfg.get('unsolicited_partial'):
